@@ -477,7 +477,10 @@ fn build_disclosure(claims: &mut Value, disclosable_claim: &str) -> Result<Discl
     match parent.get_mut("_sd") {
         Some(sd) => {
             if let Some(sd_array) = sd.as_array_mut() {
-                sd_array.push(Value::from(disclosure.digest().as_str()));
+                // a random position, so that no digest list (nested ones included) reveals the
+                // order in which the claims were made disclosable
+                let position = rand::thread_rng().gen_range(0..=sd_array.len());
+                sd_array.insert(position, Value::from(disclosure.digest().as_str()));
             } else {
                 return Err(Error::InvalidSDType);
             }
